@@ -13,6 +13,7 @@ CONSTANT OpSet = {"Get", "GetActive", "Put", "Upsert", "Remove", "Peek"}
 CONSTANT FreePut = TRUE
 CONSTANT MaxOps = 2
 CONSTANT MaxSteps = 3
+CONSTANT MaxUpd = 0
 CONSTANT Pool = 4
 CONSTANT SeqPrefix = 1
 SPECIFICATION Spec
@@ -22,6 +23,7 @@ INVARIANT ItemsExact
 INVARIANT BytesExactND
 INVARIANT EmptyIsZeroND
 INVARIANT Fresh
+INVARIANT FreshAfterInvalidate
 INVARIANT SingleFlight
 INVARIANT ListMapBij
 INVARIANT ItemsUnlocked
